@@ -108,10 +108,20 @@ fn alloc_universe() -> Vec<Vec<E>> {
         allocs.push(object(None, vec![method(names[i], &[], int(1)), method(if i == j { "zz" } else { names[j] }, &["p"], var("p"))]));
         allocs.push(object(Some(int(5)), vec![field(names[i], E::Bool(true)), method(names[j], &[], int(1))]));
     } }
+    // allocations made by user-defined get / operator / method members, alone and once per element
+    for n in 0..=3 {
+        allocs.push(array(int(n), idx(var("maker"), int(0)))); allocs.push(array(int(n), binop("+", var("maker"), int(1))));
+        allocs.push(array(int(n), mcall(var("maker"), "get", vec![var("gx")]))); allocs.push(array(int(n), fget(var("maker"), "fld")));
+        allocs.push(array(int(n), idx(fget(var("maker"), "arr"), int(0))));
+    }
+    allocs.push(idx(var("maker"), int(0))); allocs.push(binop("+", var("maker"), int(1))); allocs.push(idxset(var("maker"), int(0), int(1)));
     allocs.push(object(None, vec![]));
     allocs.push(object(Some(array(int(2), int(0))), vec![]));
     allocs.push(object(Some(object(None, vec![])), vec![field("a", object(None, vec![]))]));
-    let prelude = || vec![let_("gx", int(1)), fun("mk", &[], object(None, vec![field("k", int(0))])), fun("id", &["p"], var("p"))];
+    let prelude = || vec![let_("gx", int(1)), fun("mk", &[], object(None, vec![field("k", int(0))])), fun("id", &["p"], var("p")),
+        let_("maker", object(None, vec![field("fld", int(2)), field("arr", array(int(1), int(7))),
+            method("get", &["i"], array(int(1), var("i"))), method("+", &["k"], object(None, vec![field("k", var("k"))])),
+            method("set", &["i", "w"], array(int(2), var("w")))]))];
     // non-allocating statements must produce no records
     let quiet: Vec<E> = vec![int(1), binop("+", int(1), int(2)), call("id", vec![E::Bool(true)]), print("~\\n", vec![E::Null]), let_("q", int(3)), if_(E::Bool(true), int(1), None), binop("==", E::Null, int(1))];
     for a in &allocs {
@@ -150,6 +160,8 @@ fn processes(ctx: &mut Ctx) {
         let expected_allocs = linearise(&r.allocs, true).len();
         let f = cli::write_file(&ctx.scratch, "p.fml", src.as_bytes());
         let ast = ctx.scratch.join("p.json"); let bcf = ctx.scratch.join("p.bc");
+        // every case starts from fresh files: the verdict of a case never depends on the cases before it
+        let _ = std::fs::remove_file(&ast); let _ = std::fs::remove_file(&bcf);
         cli::simple(&exe, &["parse", f.to_str().unwrap(), "-o", ast.to_str().unwrap()]);
         cli::simple(&exe, &["compile", ast.to_str().unwrap(), "-o", bcf.to_str().unwrap()]);
         ctx.count("programs", 1);
@@ -197,6 +209,7 @@ fn cli_case(ctx: &mut Ctx, stmts: &[E]) {
     let expected = linearise(&r.allocs, true).len();
     let f = cli::write_file(&ctx.scratch, "a.fml", text.as_bytes());
     let ast = ctx.scratch.join("a.json"); let bcf = ctx.scratch.join("a.bc");
+    let _ = std::fs::remove_file(&ast); let _ = std::fs::remove_file(&bcf);
     cli::simple(&exe, &["parse", f.to_str().unwrap(), "-o", ast.to_str().unwrap()]);
     cli::simple(&exe, &["compile", ast.to_str().unwrap(), "-o", bcf.to_str().unwrap()]);
     for (action, input) in [("run", f.clone()), ("execute", bcf.clone())] {
